@@ -656,10 +656,14 @@ Proof. induction 1 as [|G G' Y Y' (E1 & E2 & E3 & E) HF IH]; cbn [shape map]; au
 (* ---------------------------------------------------------------- func_int_general, given the lstsq contract *)
 Section General.
 Variable lstsq : nat -> mat T -> mat T -> mat T.
-(* contract of scipy.linalg.lstsq (a minimiser of |H Q - M|): when the system is consistent the residual is zero *)
-Hypothesis lstsq_spec : forall k H M, mr M = mr H ->
+(* contract of scipy.linalg.lstsq (a minimiser of |H Q - M|) for call number k with arguments H, M:
+   when the system is consistent the residual is zero (and the result has the right shape) *)
+Definition lstsq_ok (k : nat) (H M : mat T) : Prop := mr M = mr H ->
   (exists Q0, mr Q0 = mc H /\ mc Q0 = mc M /\ meq K (mmul K H Q0) M) ->
   mr (lstsq k H M) = mc H /\ mc (lstsq k H M) = mc M /\ meq K (mmul K H (lstsq k H M)) M.
+(* the right-hand side func_int_general builds from a core:  M = transpose(G, [1,0,2]).reshape(n, -1) *)
+Definition gmat (G : core T) : mat T :=
+  mkmat (cn G) (cr1 G * cr2 G) (fun i c => cget K G (c / cr2 G) i (c mod cr2 G)).
 
 (* the mode fibres of G lie in the column space of H, with coefficient core C *)
 Definition in_span (H : mat T) (G C : core T) : Prop :=
@@ -676,15 +680,15 @@ Proof.
   - rewrite Nat.div_add_l by lia. rewrite Nat.div_small by lia. lia.
   - rewrite Nat.add_comm, Nat.mod_add by lia. apply Nat.mod_small; lia.
 Qed.
-Lemma general_core_fit k H G C : in_span H G C ->
+Lemma general_core_fit k H G C : lstsq_ok k H (gmat G) -> in_span H G C ->
   let A := general_core K lstsq k H G in
   let M := mkmat (cn G) (cr1 G * cr2 G) (fun i c => cget K G (c / cr2 G) i (c mod cr2 G)) in
   cr1 A = cr1 G /\ cn A = mc H /\ cr2 A = cr2 G /\ mc (lstsq k H M) = (cr1 G * cr2 G)%nat /\
   meq K (mmul K H (lstsq k H M)) M.
 Proof.
-  intros (E0 & E1 & E2 & E3 & E) A M.
+  intros Hok (E0 & E1 & E2 & E3 & E) A M.
   assert (S : mr (lstsq k H M) = mc H /\ mc (lstsq k H M) = mc M /\ meq K (mmul K H (lstsq k H M)) M).
-  { apply lstsq_spec; [unfold M; rewrite mr_mk; auto|].
+  { apply Hok; [unfold gmat; rewrite mr_mk; auto|]. change (gmat G) with M.
     exists (mkmat (mc H) (cr1 G * cr2 G) (fun j c => cget K C (c / cr2 G) j (c mod cr2 G))).
     split; [apply mr_mk|]. split; [unfold M; now rewrite !mc_mk|].
     split; [unfold mmul, M; rewrite !mr_mk; auto|]. split; [unfold mmul, M; rewrite !mc_mk; auto|].
@@ -699,10 +703,10 @@ Proof.
   unfold M in S2. rewrite mc_mk in S2. exact S2.
 Qed.
 (* the fitted coefficients reproduce the data at the sample points *)
-Theorem general_core_reproduces k H G C : in_span H G C ->
+Theorem general_core_reproduces k H G C : lstsq_ok k H (gmat G) -> in_span H G C ->
   ceq (cmode (mr H) (mget K H) (general_core K lstsq k H G)) G.
 Proof.
-  intros HS. destruct (general_core_fit k H G C HS) as (A1 & A2 & A3 & A4 & (M1 & M2 & M3)).
+  intros Hok HS. destruct (general_core_fit k H G C Hok HS) as (A1 & A2 & A3 & A4 & (M1 & M2 & M3)).
   destruct HS as (E0 & E1 & E2 & E3 & E).
   unfold ceq, cmode. rewrite cr1_mk, cn_mk, cr2_mk. rewrite A1, A3. repeat split; auto.
   intros a i b Ha Hi Hb. rewrite cget_mk by auto. rewrite A2.
@@ -712,14 +716,13 @@ Proof.
   rewrite mget_mk in M3 by (auto; lia). rewrite mget_mk in M3 by (auto; lia).
   rewrite D1, D2 in M3. rewrite <- M3 by (auto; lia).
   apply bsum_ext; intros j Hj. unfold general_core. rewrite cget_mk; auto.
-  pose proof (lstsq_spec k H (mkmat (cn G) (cr1 G * cr2 G) (fun i c => cget K G (c / cr2 G) i (c mod cr2 G)))) as S.
   unfold general_core in A2. rewrite cn_mk in A2. lia.
 Qed.
 (* with full column rank the fitted coefficients are the coefficients *)
-Theorem general_core_exact k H G C : in_span H G C -> full_col_rank H ->
+Theorem general_core_exact k H G C : lstsq_ok k H (gmat G) -> in_span H G C -> full_col_rank H ->
   ceq (general_core K lstsq k H G) C.
 Proof.
-  intros HS HF. destruct (general_core_fit k H G C HS) as (A1 & A2 & A3 & A4 & HM).
+  intros Hok HS HF. destruct (general_core_fit k H G C Hok HS) as (A1 & A2 & A3 & A4 & HM).
   destruct HS as (E0 & E1 & E2 & E3 & E).
   set (M := mkmat (cn G) (cr1 G * cr2 G) (fun i c => cget K G (c / cr2 G) i (c mod cr2 G))) in *.
   set (Q0 := mkmat (mc H) (cr1 G * cr2 G) (fun j c => cget K C (c / cr2 G) j (c mod cr2 G))).
@@ -743,14 +746,15 @@ Proof.
   destruct (divmod_idx a b (cr2 G) Hb) as [D1 D2]. now rewrite D1, D2.
 Qed.
 (* TT level: data generated from a coefficient TT-tensor C through the basis matrices Hs *)
-Lemma general_from_exact : forall Y Hs Cs k, Forall2 (fun HG C => in_span (fst HG) (snd HG) C /\ full_col_rank (fst HG)) (combine Hs Y) Cs ->
+Lemma general_from_exact : (forall k H M, lstsq_ok k H M) ->
+  forall Y Hs Cs k, Forall2 (fun HG C => in_span (fst HG) (snd HG) C /\ full_col_rank (fst HG)) (combine Hs Y) Cs ->
   length Hs = length Y -> Forall2 ceq (func_int_general_from K lstsq k Y Hs) Cs.
 Proof.
-  induction Y as [|G Y IH]; intros [|H Hs] Cs k HF L; cbn [length] in L; try discriminate; cbn [combine] in HF;
+  intros Hall. induction Y as [|G Y IH]; intros [|H Hs] Cs k HF L; cbn [length] in L; try discriminate; cbn [combine] in HF;
     cbn [func_int_general_from].
   - inversion HF; constructor.
   - inversion HF as [|? C ? Cs' [HS HR] HF']; subst. cbn [fst snd] in *. constructor.
-    + now apply general_core_exact.
+    + apply general_core_exact; auto.
     + apply IH; auto.
 Qed.
 End General.
